@@ -801,7 +801,7 @@ class ExprMixin:
 
     def real_class(self, qual):
         try:
-            mod, cls = qual.rsplit(".", 1)
+            mod, cls = qual.split("@")[0].rsplit(".", 1)
             return getattr(importlib.import_module(mod), cls)
         except Exception:
             return None
